@@ -61,6 +61,12 @@ EngVariants(S, t, cs) ==
            rest == EngVariants(S, t, cs \ {c}) IN
        rest \cup {[s EXCEPT !.ctx[c].eng = MAIN] : s \in {s \in rest : s.ctx[c].open /\ s.ctx[c].edb = t[1] /\ s.ctx[c].eng = t[2]}}
 
+\* spelling variants of a DDL statement: CREATE TABLE | CREATE TABLE IF NOT EXISTS | CREATE TRANSIENT TABLE,
+\* DROP TABLE | DROP TABLE IF EXISTS, CREATE SCHEMA | CREATE SCHEMA IF NOT EXISTS.  IF [NOT] EXISTS turns the "already exists" /
+\* "does not exist" outcome into a successful no-op and changes nothing else - in particular not the need for a context.
+Form(op) == IF "form" \in DOMAIN op THEN op.form ELSE "plain"
+Lenient(op) == Form(op) \in {"ine", "ie"}
+
 Steps(st, op, D) ==
  LET x == st.ctx[op.c] IN
  CASE op.k = "connect" ->
@@ -79,7 +85,8 @@ Steps(st, op, D) ==
    [] op.k = "createsc" ->
         IF op.q = 2 /\ ~x.dset THEN {RR(st, "nodb", D)}
         ELSE LET t == IF op.q = 3 THEN <<op.d, op.s>> ELSE <<x.edb, op.s>> IN
-             IF t[1] \notin st.dbs \/ t \in st.schemas THEN {RR(st, "missing", D)}
+             IF t[1] \notin st.dbs THEN {RR(st, "missing", D)}
+             ELSE IF t \in st.schemas THEN {RR(st, IF Lenient(op) THEN "ok" ELSE "missing", D)}
              ELSE {RR([st EXCEPT !.schemas = @ \cup {t}], "ok", D)}
    [] op.k = "dropsc" ->
         IF op.q = 2 /\ ~x.dset THEN {RR(st, "nodb", D)}
@@ -123,10 +130,13 @@ Steps(st, op, D) ==
                  tt == IF op.q = 1 /\ op.k # "createt" /\ t0 \notin st.tables /\ tm \in st.tables
                           /\ "C03.usedb_keeps_reported_schema" \in D THEN tm ELSE t0 IN
              IF op.k = "createt" THEN
-                IF ~SchemaOk(st, t) \/ tt \in st.tables THEN {RR(st, "missing", D)}
+                IF ~SchemaOk(st, t) THEN {RR(st, "missing", D)}
+                ELSE IF tt \in st.tables THEN {RR(st, IF Lenient(op) THEN "ok" ELSE "missing", D)}
                 ELSE {RR([st EXCEPT !.tables = @ \cup {tt}], "ok", D)}
              ELSE IF op.k = "dropt" THEN
-                IF tt \notin st.tables THEN {RR(st, "missing", D)}
+                \* IF EXISTS in a schema that does not exist: a no-op or an error - the property does not say
+                IF tt \notin st.tables THEN (IF ~Lenient(op) THEN {RR(st, "missing", D)}
+                                             ELSE IF SchemaOk(st, t) THEN {RR(st, "ok", D)} ELSE {RR(st, "ok", D), RR(st, "missing", D)})
                 ELSE {RR([st EXCEPT !.tables = @ \ {tt}], "ok", D)}
              ELSE IF tt \in st.tables THEN {RH(st, "hit", tt, D)} ELSE {RR(st, "missing", D)}
 
@@ -143,6 +153,10 @@ Ops(st) ==
   \cup [k : {"createt", "dropt", "probe", "ins"}, c : Open, q : {1}, d : {D0}, s : {S0}]
   \cup [k : {"createt", "dropt", "probe", "ins"}, c : Open, q : {2}, d : {D0}, s : Sc]
   \cup [k : {"createt", "dropt", "probe", "ins"}, c : Open, q : {3}, d : Db, s : Sc]
+  \cup [k : {"createt"}, c : Open, q : {1, 2}, d : {D0}, s : {S0}, form : {"ine", "transient"}]
+  \cup [k : {"createt"}, c : Open, q : {3}, d : Db, s : {S0}, form : {"ine", "transient"}]
+  \cup [k : {"dropt"}, c : Open, q : {1, 3}, d : {D0}, s : {S0}, form : {"ie"}]
+  \cup [k : {"createsc"}, c : Open, q : {2}, d : {D0}, s : {S0}, form : {"ine"}]
 
 IsErr(r) == r.obs.res \in {"missing", "nodb", "nosc"}
 
